@@ -6,6 +6,7 @@ import ast
 from sa.absint import Evaluator, all_effects
 from sa.callgraph import CallGraph
 from sa.index import AnalysisError, walk_no_nested
+from rules.setuse import identity_observable, order_observable, parents_of
 from sa.terms import App, Const, Ref, Sym, subterms
 
 EXPLANATION = ("effect analysis over the call graph of the deterministic commands (create, parse, image, mpi, cache_create, "
@@ -39,6 +40,7 @@ def forbidden_in(ctx, f):
     """[(node, what)] for forbidden nondeterministic sources used directly in function f."""
     repo = ctx.repo
     out = []
+    par = parents_of(f.node)
     for n in walk_no_nested(f.node):
         if isinstance(n, ast.Call):
             fn = n.func
@@ -49,11 +51,22 @@ def forbidden_in(ctx, f):
                     if name == pre.rstrip(".") or name.startswith(pre if pre.endswith(".") else pre + "."):
                         out.append((n, f"{what}: {name}"))
                 if r[0] == "builtin" and name in FORBIDDEN_BUILTINS and FORBIDDEN_BUILTINS[name] and isinstance(fn, ast.Name):
-                    out.append((n, f"{FORBIDDEN_BUILTINS[name]}: {name}()"))
+                    if name in ("set", "frozenset"):
+                        why = order_observable(f.node, n, par)
+                        if why:
+                            out.append((n, f"set construction: {name}() ({why})"))
+                    elif name == "id":
+                        why = identity_observable(f.node, n, par)
+                        if why:
+                            out.append((n, f"object identity: id() ({why})"))
+                    else:
+                        out.append((n, f"{FORBIDDEN_BUILTINS[name]}: {name}()"))
             if isinstance(fn, ast.Attribute) and fn.attr in PATH_METHODS:
                 out.append((n, f"{PATH_METHODS[fn.attr]}: .{fn.attr}()"))
         elif isinstance(n, (ast.Set, ast.SetComp)):
-            out.append((n, "set construction (iteration order depends on the string hash seed)"))
+            why = order_observable(f.node, n, par)
+            if why:
+                out.append((n, f"set construction, iteration order depends on the string hash seed ({why})"))
         elif isinstance(n, ast.Attribute):
             r = repo.resolve_expr(f.module, n)
             if r and r[0] == "ext" and r[1] in ("os.environ", "sys.argv"):
